@@ -25,9 +25,9 @@ func init() {
 		Doc: "consuming an occurrence never consults the env flag", Run: mat5})
 	register(&Rule{ID: "MAT-6", Props: []string{"C12", "C03", "C10", "C01", "C11"}, Floor: 1,
 		Doc: "the group matcher excludes an env-backed option only after a match that recorded no value for it", Run: mat6})
-	register(&Rule{ID: "MAT-7", Props: []string{"C10", "C11", "C02", "C01", "C06"}, Floor: 6,
+	register(&Rule{ID: "MAT-7", Props: []string{"C10", "C11", "C02", "C01", "C06", "C09", "C12"}, Floor: 6,
 		Doc: "a foreign occurrence is skipped over exactly the tokens an own occurrence of that form consumes; an own match reports the number of tokens it dropped", Run: mat7})
-	register(&Rule{ID: "MAT-8", Props: []string{"C10", "C19", "C01", "C02", "C13", "C11", "C06"}, Floor: 3,
+	register(&Rule{ID: "MAT-8", Props: []string{"C10", "C19", "C01", "C02", "C13", "C11", "C06", "C12"}, Floor: 3,
 		Doc: "sibling guards: own option only; empty '=' value is no match; separate value starting with '-' is no match; a flag (IsBool of the looked-up option) records \"true\"", Run: mat8})
 	register(&Rule{ID: "MAT-11", Props: []string{"C11", "C01", "C10", "C12"}, Floor: 4,
 		Doc: "group retry: (false, input) if the first try fails, else try again on each new vector until a try fails, returning the last vector", Run: mat11})
@@ -197,6 +197,59 @@ func tokenProvenance(v ssa.Value) []ssa.Value {
 	})
 }
 
+// lossyConversion: on the way from its roots, v passes a conversion between string and []rune, or from
+// an integer to a string (conversions to and from []byte keep the bytes and are not meant).
+func lossyConversion(v ssa.Value) bool {
+	seen := map[ssa.Value]bool{}
+	var walk func(v ssa.Value) bool
+	isRunes := func(t types.Type) bool {
+		sl, ok := t.Underlying().(*types.Slice)
+		if !ok {
+			return false
+		}
+		b, ok := sl.Elem().Underlying().(*types.Basic)
+		return ok && b.Kind() == types.Int32
+	}
+	isStr := func(t types.Type) bool {
+		b, ok := t.Underlying().(*types.Basic)
+		return ok && b.Info()&types.IsString != 0
+	}
+	isInt := func(t types.Type) bool {
+		b, ok := t.Underlying().(*types.Basic)
+		return ok && b.Info()&types.IsInteger != 0
+	}
+	walk = func(v ssa.Value) bool {
+		if v == nil || seen[v] {
+			return false
+		}
+		seen[v] = true
+		switch x := v.(type) {
+		case *ssa.Phi:
+			for _, e := range x.Edges {
+				if walk(e) {
+					return true
+				}
+			}
+		case *ssa.Convert:
+			from, to := x.X.Type(), x.Type()
+			if (isStr(from) && isRunes(to)) || (isRunes(from) && isStr(to)) || (isInt(from) && isStr(to)) {
+				return true
+			}
+			return walk(x.X)
+		case *ssa.Slice:
+			return walk(x.X)
+		case *ssa.ChangeType:
+			return walk(x.X)
+		case *ssa.BinOp:
+			if x.Op == token.ADD {
+				return walk(x.X) || walk(x.Y)
+			}
+		}
+		return false
+	}
+	return walk(v)
+}
+
 func mat2(c *Ctx) {
 	for _, fn := range c.pkgFuncsDeep("internal/matcher") {
 		recs := c.ctxRecords(fn)
@@ -225,6 +278,12 @@ func mat2(c *Ctx) {
 			}
 			good := true
 			n := 0
+			if lossyConversion(r.val) {
+				// string -> []rune -> string (or string(byte)) re-encodes: bytes that are not valid UTF-8
+				// come back as U+FFFD
+				c.Bad(key, r.mu.Pos(), "the recorded string went through a []rune / integer-to-string conversion: it is re-encoded, not a sub-slice of the command-line token (bytes that are not valid UTF-8 are replaced)")
+				continue
+			}
 			for _, v := range ir.PhiValuesAt(r.val, r.mu.Block()) {
 				for _, root := range tokenProvenance(v) {
 					n++
@@ -965,6 +1024,38 @@ func mat6(c *Ctx) {
 				okB, _ := noBreak(h)
 				c.Check(okB, Q(fn)+":every-option-offered", mu.Pos(), "every option of the group is offered the arguments; an excluded one is passed over alone",
 					"the loop over the group's options can stop early: an excluded (env-backed) option would keep the options behind it from being matched")
+				// ... and nothing but its exclusion keeps an option from being offered the arguments: from
+				// the start of an iteration, with the edges on which the option is found excluded cut, the
+				// next iteration is not reached around the Match call
+				if _, entry, _ := loopBody(h); entry != nil {
+					cutX := map[ir.Edge]bool{}
+					ir.Instrs(fn, func(in2 ssa.Instruction) {
+						lk, isLk := in2.(*ssa.Lookup)
+						if !isLk || lk.Index != mu.Key {
+							return
+						}
+						if _, ff, isF := ir.FieldLoad(lk.X); !isF || ff != "ExcludedOpts" {
+							return
+						}
+						vals := []ssa.Value{lk}
+						if lk.CommaOk {
+							vals = nil
+							for _, u := range *lk.Referrers() {
+								if ex, isEx := u.(*ssa.Extract); isEx {
+									vals = append(vals, ex)
+								}
+							}
+						}
+						for _, v := range vals {
+							for _, e := range ir.EdgesWhere(fn, v, true) {
+								cutX[ir.Edge{From: e.From, To: e.To}] = true
+							}
+						}
+					})
+					skipped := entry != match.Block() && ir.Reach(entry, map[*ssa.BasicBlock]bool{match.Block(): true}, cutX)[h]
+					c.Check(!skipped, Q(fn)+":offered-unless-excluded", match.Pos(), "an option of the group is passed over only when it is excluded (matched through its environment value before)",
+						"an option of the group can be passed over although it is not excluded: an occurrence of it on the command line is left behind")
+				}
 				// the group gives up only when there is nothing to offer (empty vector, options rejected
 				// after `--`) or when every option of the group has declined: no other way to `false`
 				_, _, ex := loopBody(h)
